@@ -28,3 +28,13 @@ Theorem C07_shared_type_fields_are_the_union : forall a b m,
   td_fields m = own_fields a ++ filter (fun f => negb (is_id_field f)) (mergeable_fields b).
 Proof. exact merge_boundary_fields. Qed.
 Print Assumptions C07_shared_type_fields_are_the_union.
+
+(* The merged schema has EXACTLY the types the services define, minus the federation plumbing: a name is a type of the merge
+   of two or more service schemas iff the first service defines it and it is not Node/Service, or a later service defines
+   it and it is not Node, Service or a "__" meta type.  Nothing is lost and nothing else appears (for every number of
+   services; induction over the fold with an invariant on the accumulator). *)
+Theorem C07_merged_types_are_the_union : forall s b1 rest r, merge_schemas (s :: b1 :: rest) = Ok r ->
+  forall n, In n (map td_name r) <->
+            (In n (map td_name s) /\ dropped_first n = false) \/ exists b, In b (b1 :: rest) /\ contributes b n.
+Proof. exact merge_schemas_names. Qed.
+Print Assumptions C07_merged_types_are_the_union.
